@@ -400,6 +400,7 @@ Proof.
   - reflexivity.
   - destruct Hc' as [<-|[]]. vm_compute in E. discriminate E.
 Qed.
+
 (** * C05, SHACL half: the abstract RDF graph of the SHACL output
 
     [Model.ShaclDoc.shacl_graph ns tau shapes] lists the triples
@@ -482,12 +483,12 @@ Print Assumptions C05_shacl_wellformed.
     whose property / datatype / class IRIs starts with the shape marker, the
     references of the extracted shapes resolve (no hypothesis on the shape
     list is left) ... *)
-Theorem C05_run_refs_closed : forall fa c thr g ns shapes,
+Theorem C05_run_refs_closed_default_ns : forall fa c thr g ns shapes,
   r_shapes_ns c = c_SHAPES_DEFAULT_NAMESPACE ->
   forallb (sentinel_free (r_tau c)) g = true ->
   run_shapes fa c thr g = inl (ns, shapes) -> ClosureLemmas.refs_closed shapes.
 Proof. exact run_refs_closed. Qed.
-Print Assumptions C05_run_refs_closed.
+Print Assumptions C05_run_refs_closed_default_ns.
 
 (** ... and the SHACL graph of the run satisfies S1-S3 *)
 Theorem C05_shacl_run : forall fa c thr g ns shapes tr L,
